@@ -374,12 +374,12 @@ func short(s string) string {
 var mapStrType = reflect.TypeOf(map[string]interface{}(nil))
 
 type nopts struct {
-	mapStr, signed, raw2str, prefArr bool
+	mapStr, signed, raw2str, prefArr, zeroCopy bool
 	sliceT                           string
 }
 
 func (n nopts) String() string {
-	return fmt.Sprintf("MapType=%v SliceType=%s SignedInteger=%v RawToString=%v PreferArrayOverSlice=%v", map[bool]string{true: "map[string]interface{}", false: "map[interface{}]interface{}"}[n.mapStr], n.sliceT, n.signed, n.raw2str, n.prefArr)
+	return fmt.Sprintf("MapType=%v SliceType=%s SignedInteger=%v RawToString=%v PreferArrayOverSlice=%v ZeroCopy=%v", map[bool]string{true: "map[string]interface{}", false: "map[interface{}]interface{}"}[n.mapStr], n.sliceT, n.signed, n.raw2str, n.prefArr, n.zeroCopy)
 }
 
 func applyNopts(h codec.Handle, n nopts) {
@@ -390,6 +390,7 @@ func applyNopts(h codec.Handle, n nopts) {
 	bh.SignedInteger = n.signed
 	bh.RawToString = n.raw2str
 	bh.PreferArrayOverSlice = n.prefArr
+	bh.ZeroCopy = n.zeroCopy // the tree may then hold views of the input: it must still be the same tree
 }
 
 func vhBasic(h codec.Handle) *codec.BasicHandle {
@@ -654,7 +655,7 @@ func (c *ctx) one(r *vh.Rng, idx int, wantModel bool) {
 	t := vh.StripOmitEmpty(vh.RandType(r, to, 0))
 	var ti tinfo
 	classify(t, &ti)
-	n := nopts{signed: r.Chance(1, 3), raw2str: r.Chance(1, 3), prefArr: r.Chance(1, 4), sliceT: "[]interface{}"}
+	n := nopts{signed: r.Chance(1, 3), raw2str: r.Chance(1, 3), prefArr: r.Chance(1, 4), zeroCopy: r.Chance(1, 3), sliceT: "[]interface{}"}
 	n.mapStr = !ti.nonStrKey && r.Chance(1, 2)
 	vo := vh.ValOpts{BigLens: r.Chance(1, 5), MaxLen: 4}
 	if F == "json" {
@@ -751,7 +752,7 @@ func (c *ctx) one(r *vh.Rng, idx int, wantModel bool) {
 	weF, _ := oF["WriteExt"].(bool)
 	// json writes time / bytes as text, msgpack without WriteExt writes time as a byte string: the string
 	// multiset is compared where the format keeps strings apart
-	if F != "json" && !(F == "msgpack" && !weF && ti.hasTime) {
+	if (F != "json" && !(F == "msgpack" && !weF && ti.hasTime)) || (F == "json" && !ti.hasTime && !ti.hasBytes && !ti.nonStrKey) {
 		if sa, _ := oF["StructToArray"].(bool); !sa {
 			var names []string
 			fieldNames(v, &names)
